@@ -225,6 +225,7 @@ class ExprMixin:
         k = (family, field)
         if k not in st.heap:
             sch = R.SCHEMAS[family]
+            if sch.fields.get(field) == "ignored": raise VCError("heap access to ignored field %s" % field)
             srt = z3.IntSort() if field == "__class__" else T.sort_of(sch.fields[field])
             st.heap[k] = z3.Const("H0_%s_%s" % (family, field), z3.ArraySort(T.Ref, srt))
         return st.heap[k]
